@@ -371,3 +371,280 @@ Proof.
   intros R S W Fm Fh.
   exact (compile_input_transparent r P texts l a R S W ks mr full _ Fm Fh (healthy_window_spec (p_limit P) l a)).
 Qed.
+
+(* ================================================================== the compiler's checkpoint look-ups through the caches *)
+Lemma compile_with_core P texts evs cks from a :
+  compile_with P texts evs cks from a =
+  compile_core P texts evs (hierarchy (p_fixed P) from (p_max_refs P) cks) (latest_any (p_fixed P) from cks) from a.
+Proof. reflexivity. Qed.
+
+Lemma hierarchy_projection fixed from n l : hierarchy fixed from n (filter is_ckpt l) = hierarchy fixed from n l.
+Proof.
+  unfold hierarchy, unique_of. rewrite fold_left_filter; [reflexivity|].
+  intros u f K. unfold unique_step. now rewrite (ckpt_of_non f K).
+Qed.
+Lemma latest_any_projection fixed from l : latest_any fixed from (filter is_ckpt l) = latest_any fixed from l.
+Proof.
+  unfold latest_any. rewrite fold_left_filter; [reflexivity|].
+  intros u f K. unfold latest_step. now rewrite (ckpt_of_non f K).
+Qed.
+
+Lemma ckpt_of_seq f c : ckpt_of f = Some c -> ck_seq c = fseq f.
+Proof. unfold ckpt_of. destruct (fb f); try discriminate. intros H. inversion H. reflexivity. Qed.
+
+(* the reader's fold (latest first, explicit seq tie-break) and the truth loop (stream order, later frame wins a tie)
+   agree on a stream with increasing seqs *)
+Lemma better_true c b : better c b = true <-> ck_to b < ck_to c \/ (ck_to b = ck_to c /\ ck_seq b < ck_seq c).
+Proof.
+  unfold better. rewrite orb_true_iff, andb_true_iff, !N.ltb_lt, N.eqb_eq. tauto.
+Qed.
+Lemma better_false c b : better c b = false <-> ~ (ck_to b < ck_to c \/ (ck_to b = ck_to c /\ ck_seq b < ck_seq c)).
+Proof. rewrite <- better_true. destruct (better c b); split; intros H; try reflexivity; try discriminate. exfalso. now apply H. Qed.
+
+Lemma step_cache_comm fixed from b x y : fseq x <> fseq y ->
+  latest_step_cache fixed from (latest_step_cache fixed from b x) y =
+  latest_step_cache fixed from (latest_step_cache fixed from b y) x.
+Proof.
+  intros D. unfold latest_step_cache.
+  destruct (ckpt_of x) as [cx|] eqn:Cx; destruct (ckpt_of y) as [cy|] eqn:Cy; try reflexivity.
+  pose proof (ckpt_of_seq x cx Cx) as Sx. pose proof (ckpt_of_seq y cy Cy) as Sy.
+  destruct (eligible fixed from cx), (eligible fixed from cy); try reflexivity.
+  destruct b as [b|].
+  - destruct (better cx b) eqn:B1; destruct (better cy b) eqn:B2;
+      try rewrite B1; try rewrite B2;
+      destruct (better cy cx) eqn:B3; destruct (better cx cy) eqn:B4; try reflexivity;
+      rewrite ?better_true, ?better_false in *; exfalso; lia.
+  - destruct (better cy cx) eqn:B3; destruct (better cx cy) eqn:B4; try reflexivity;
+      rewrite ?better_true, ?better_false in *; exfalso; lia.
+Qed.
+
+Lemma fold_step_cache_comm fixed from x : forall r b, (forall y, In y r -> fseq y <> fseq x) ->
+  fold_left (latest_step_cache fixed from) r (latest_step_cache fixed from b x) =
+  latest_step_cache fixed from (fold_left (latest_step_cache fixed from) r b) x.
+Proof.
+  induction r as [|y r IH]; intros b D; [reflexivity|]. cbn [fold_left].
+  rewrite (step_cache_comm fixed from b x y) by (intros E; apply (D y); [now left|now symmetry]).
+  apply IH. intros z Z. apply D. now right.
+Qed.
+
+Lemma incr_distinct x r : incr (x :: r) -> forall y, In y r -> fseq y <> fseq x.
+Proof. cbn [incr]. intros [F _] y Y. rewrite Forall_forall in F. specialize (F y Y). lia. Qed.
+Lemma incr_tail x r : incr (x :: r) -> incr r.
+Proof. cbn [incr]. tauto. Qed.
+
+Lemma cache_fold_rev fixed from evs : incr evs ->
+  fold_left (latest_step_cache fixed from) (rev evs) None = fold_left (latest_step_cache fixed from) evs None.
+Proof.
+  induction evs as [|x r IH]; intros S; [reflexivity|]. cbn [rev]. rewrite fold_left_app. cbn [fold_left].
+  rewrite (IH (incr_tail x r S)). symmetry. apply fold_step_cache_comm. exact (incr_distinct x r S).
+Qed.
+
+Lemma cache_fold_stream fixed from : forall evs best, incr evs ->
+  (forall b, best = Some b -> forall f, In f evs -> ck_seq b < fseq f) ->
+  fold_left (latest_step_cache fixed from) evs best = fold_left (latest_step fixed from) evs best.
+Proof.
+  induction evs as [|x r IH]; intros best S Hb; [reflexivity|]. cbn [fold_left].
+  assert (Lt : forall g, In g r -> fseq x < fseq g).
+  { cbn [incr] in S. destruct S as [F _]. rewrite Forall_forall in F. exact F. }
+  assert (E : latest_step_cache fixed from best x = latest_step fixed from best x).
+  { unfold latest_step_cache, latest_step. destruct (ckpt_of x) as [c|] eqn:Cx; [|reflexivity].
+    destruct (eligible fixed from c); [|reflexivity]. destruct best as [b|]; [|reflexivity].
+    pose proof (ckpt_of_seq x c Cx) as Sx. pose proof (Hb b eq_refl x (or_introl eq_refl)) as Lb.
+    destruct (better c b) eqn:B; destruct (ck_to b <=? ck_to c) eqn:L; try reflexivity;
+      rewrite ?better_true, ?better_false in B; rewrite ?N.leb_le, ?N.leb_gt in L; exfalso; lia. }
+  rewrite E. apply IH; [exact (incr_tail x r S)|].
+  intros b Eb f F. unfold latest_step in Eb. destruct (ckpt_of x) as [c|] eqn:Cx.
+  - pose proof (ckpt_of_seq x c Cx) as Sx.
+    destruct (eligible fixed from c).
+    + destruct best as [b0|].
+      * destruct (ck_to b0 <=? ck_to c); inversion Eb; subst b.
+        -- rewrite Sx. now apply Lt.
+        -- apply (Hb b0 eq_refl f). now right.
+      * inversion Eb; subst b. rewrite Sx. now apply Lt.
+    + apply (Hb b Eb f). now right.
+  - apply (Hb b Eb f). now right.
+Qed.
+
+Lemma cache_fold_is_latest_any fixed from evs : incr evs ->
+  fold_left (latest_step_cache fixed from) (rev evs) None = latest_any fixed from evs.
+Proof.
+  intros S. rewrite (cache_fold_rev fixed from evs S). unfold latest_any. apply cache_fold_stream; [exact S|]. intros b H. discriminate H.
+Qed.
+
+(* a complete scan has read the whole file, and every line of it parses *)
+Lemma scan_complete_all k ls evs : scan_lines k ls = ScTail evs true -> all_good_c ls = Some evs.
+Proof.
+  unfold scan_lines. intros H. destruct (all_good_c (lastn_lines k ls)) as [e|] eqn:G; [|discriminate].
+  inversion H as [[He Hc]]. subst e. destruct (lastn_lines_suffix k ls) as (p & Hp & Hn).
+  apply Nat.leb_le in Hc. rewrite (Hn Hc) in Hp. cbn [app] in Hp. rewrite Hp. exact G.
+Qed.
+
+(* whatever file the checkpoint readers end up scanning: if it parses as a whole it is the projection *)
+Lemma effective_comp_faithful l comp full cl fs :
+  CompFaithfulC l comp full -> comp_effective comp full = Some (Some cl) -> all_good_c cl = Some fs -> fs = filter is_ckpt l.
+Proof.
+  unfold CompFaithfulC, comp_effective. destruct comp as [ls|].
+  - intros F E G. inversion E; subst cl. exact (F fs G).
+  - destruct full as [fl|]; [|discriminate]. destruct (all_good_c fl) as [f0|] eqn:G0; [|discriminate].
+    intros F E G. rewrite (F f0 eq_refl) in E.
+    destruct (filter is_ckpt l) as [|x r] eqn:Fc; [discriminate|]. inversion E; subst cl.
+    change (CGood x :: map CGood r) with (map CGood (x :: r)) in G. rewrite all_good_c_map in G. now inversion G.
+Qed.
+
+Lemma latest_cache_ok fixed me comp full from l c :
+  incr l -> CompFaithfulC l comp full -> latest_cache fixed me comp full from = LSome c -> latest_any fixed from l = Some c.
+Proof.
+  intros S F H. unfold latest_cache in H.
+  destruct (comp_effective comp full) as [[cl|]|] eqn:E; try discriminate.
+  destruct (scan_lines me cl) as [|evs cpl] eqn:Sc; [discriminate|]. destruct cpl; [|discriminate].
+  pose proof (effective_comp_faithful l comp full cl evs F E (scan_complete_all me cl evs Sc)) as Ev. subst evs.
+  rewrite (cache_fold_is_latest_any fixed from _ (incr_filter is_ckpt l S)), latest_any_projection in H.
+  destruct (latest_any fixed from l); inversion H. reflexivity.
+Qed.
+
+Lemma idx_load_map x fs : idx_load (map CGood x) = Some fs -> fs = x.
+Proof.
+  unfold idx_load. rewrite all_good_c_map. destruct x as [|f r]; [discriminate|].
+  destruct (mono_from 0 (f :: r)); [|discriminate]. intros H. now inversion H.
+Qed.
+
+Lemma idx_rebuild_cases l comp full cl idx0 :
+  CompFaithfulC l comp full -> comp_effective comp full = Some (Some cl) ->
+  idx_rebuild cl idx0 = idx0
+  \/ (filter is_ckpt l <> [] /\ idx_rebuild cl idx0 = Some (map CGood (filter is_ckpt l)))
+  \/ (filter is_ckpt l = [] /\ idx_rebuild cl idx0 = None).
+Proof.
+  intros F E. unfold idx_rebuild. destruct (all_good_c cl) as [fs|] eqn:G; [|now left].
+  pose proof (effective_comp_faithful l comp full cl fs F E G) as Ef. subst fs.
+  destruct (forallb is_ckpt (filter is_ckpt l)); [|now left].
+  destruct (filter is_ckpt l) as [|x r] eqn:Fc; [right; right; now split|].
+  right; left. split; [discriminate|reflexivity].
+Qed.
+
+Lemma hier_cache_ok comp full idx l es :
+  CompFaithfulC l comp full -> IdxFaithful l idx -> hier_cache comp full idx = HSome es -> es = filter is_ckpt l.
+Proof.
+  intros F Fi H. unfold hier_cache in H.
+  (* the second stage, shared by both branches: the index file `e0` does not load *)
+  assert (Stage2 : forall e0, idx_load e0 = None ->
+            match comp_effective comp full with
+            | None => HErr
+            | Some None => HNone
+            | Some (Some cl) =>
+              match idx_rebuild cl (Some e0) with
+              | Some es' => match idx_load es' with Some fs => HSome fs | None => HErr end
+              | None => HSome []
+              end
+            end = HSome es -> es = filter is_ckpt l).
+  { intros e0 L0 H2. destruct (comp_effective comp full) as [[cl|]|] eqn:E; try discriminate.
+    destruct (idx_rebuild_cases l comp full cl (Some e0) F E) as [R|[[Ne R]|[Em R]]]; rewrite R in H2.
+    - rewrite L0 in H2. discriminate.
+    - destruct (idx_load (map CGood (filter is_ckpt l))) as [fs|] eqn:L1; [|discriminate].
+      inversion H2; subst es. exact (idx_load_map _ _ L1).
+    - inversion H2. now rewrite Em. }
+  destruct idx as [e0|].
+  - destruct (idx_load e0) as [fs|] eqn:L0.
+    + inversion H; subst es. exact (Fi fs L0).
+    + exact (Stage2 e0 L0 H).
+  - destruct (comp_effective comp full) as [[cl|]|] eqn:E; try discriminate.
+    destruct (idx_rebuild_cases l comp full cl None F E) as [R|[[Ne R]|[Em R]]]; rewrite R in H; try discriminate.
+    destruct (idx_load (map CGood (filter is_ckpt l))) as [fs|] eqn:L1.
+    + inversion H; subst es. exact (idx_load_map _ _ L1).
+    + exact (Stage2 _ L1 H).
+Qed.
+
+Lemma latest_for_compile_ok fixed me full comp idx l from :
+  incr l -> CompFaithfulC l comp full ->
+  latest_for_compile fixed me full comp idx l from = latest_any fixed from l.
+Proof.
+  intros S F. unfold latest_for_compile. destruct (caches_behind_head full comp idx); [reflexivity|].
+  destruct (latest_cache fixed me comp full from) as [| |c] eqn:L; try reflexivity.
+  symmetry. exact (latest_cache_ok fixed me comp full from l c S F L).
+Qed.
+
+Lemma hier_for_compile_ok fixed levels full comp idx l from :
+  CompFaithfulC l comp full -> IdxFaithful l idx ->
+  hier_for_compile fixed levels full comp idx l from = hierarchy fixed from levels l.
+Proof.
+  intros F Fi. unfold hier_for_compile. destruct (caches_behind_head full comp idx); [reflexivity|].
+  destruct (hier_cache comp full idx) as [| |es] eqn:H; try reflexivity.
+  rewrite (hier_cache_ok comp full idx l es F Fi H). apply hierarchy_projection.
+Qed.
+
+(* the whole read side of a run's context through the caches as found *)
+Theorem compile_cached_transparent (r : tail_count) (P : params) (texts : N -> N) (l : log) (a : N) (ks : list nat) (me : nat)
+        (mr full comp idx : cfile) (window : option (log * N)) :
+  tail_count_sound r = true -> incr l -> wf_refs l = true ->
+  MrFaithful l mr full -> HeadFaithful l full -> WindowSpec (p_limit P) l a window ->
+  CompFaithfulC l comp full -> IdxFaithful l idx ->
+  compile_cached r P texts ks me mr full comp idx window l a = compile P texts l a.
+Proof.
+  intros R S W Fm Fh Ws Fc Fi.
+  rewrite <- (compile_input_transparent r P texts l a R S W ks mr full window Fm Fh Ws).
+  unfold compile_cached, compile_fast. destruct (input_fast r (p_limit P) ks mr full window l a) as [[evs from]|]; [|reflexivity].
+  f_equal. rewrite compile_with_core, hierarchy_projection, latest_any_projection.
+  rewrite (hier_for_compile_ok (p_fixed P) (p_max_refs P) full comp idx l from Fc Fi).
+  rewrite (latest_for_compile_ok (p_fixed P) me full comp idx l from S Fc). reflexivity.
+Qed.
+
+(* witnesses: 8 messages, cumulative checkpoints (frames 9, 10) up to messages 4 and 8, one more message *)
+Definition ck_log : log :=
+  mkf 0 BOther :: plain_msgs 8 1 ++ [mkf 9 (BCkpt true 4 1); mkf 10 (BCkpt true 8 2); mkf 11 BMsg].
+Definition ck_full : cfile := Some (map CGood ck_log).
+Definition ck_mr : cfile := Some (map CGood (filter mr_keep ck_log)).
+Definition ck_comp : list cline := map CGood (filter is_ckpt ck_log).
+Definition ck_comp_recreated : list cline := [CGood (mkf 9 (BCkpt true 4 1))].   (* K2: only one checkpoint left in a well-formed file *)
+Definition ck_comp_damaged : list cline := [CBad; CGood (mkf 10 (BCkpt true 8 2))].
+Definition ck_idx_garbage : list cline := [CBad].
+
+Lemma comp_projection_faithful l full : CompFaithfulC l (Some (map CGood (filter is_ckpt l))) full.
+Proof. intros fs G. rewrite all_good_c_map in G. now inversion G. Qed.
+Lemma comp_with_bad_line_faithful l full u v : CompFaithfulC l (Some (u ++ CBad :: v)) full.
+Proof. intros fs G. rewrite all_good_c_bad in G. discriminate. Qed.
+Lemma idx_projection_faithful l : IdxFaithful l (Some (map CGood (filter is_ckpt l))).
+Proof. intros fs L. exact (idx_load_map _ _ L). Qed.
+Lemma idx_unloadable_faithful l es : idx_load es = None -> IdxFaithful l (Some es).
+Proof. intros N fs L. rewrite N in L. discriminate. Qed.
+
+Definition summaries (o : option (decision * bundle)) : list N :=
+  match o with
+  | Some (_, b) => flat_map (fun i => match i with ISummary _ t => [t] | _ => [] end) (b_items b)
+  | None => []
+  end.
+
+Lemma ck_examples :
+  valid_log ck_log = true /\ wf_refs ck_log = true
+  /\ MrFaithful ck_log ck_mr ck_full /\ HeadFaithful ck_log ck_full
+  /\ CompFaithfulC ck_log (Some ck_comp) ck_full /\ CompFaithfulC ck_log (Some ck_comp_damaged) ck_full /\ CompFaithfulC ck_log None ck_full
+  /\ IdxFaithful ck_log (Some ck_comp) /\ IdxFaithful ck_log (Some ck_idx_garbage) /\ IdxFaithful ck_log None
+  (* intact; checkpoint sidecar with an unparsable line and an index that does not load; neither file: two summary refs
+     (to_seq 4 and 8) and the message after them, as the replay says *)
+  /\ summaries (compile_cached CountUpToCut code16 no_texts [20%nat] 100%nat ck_mr ck_full (Some ck_comp) (Some ck_comp) None ck_log 11) = [4; 8]
+  /\ summaries (compile_cached CountUpToCut code16 no_texts [20%nat] 100%nat ck_mr ck_full (Some ck_comp_damaged) (Some ck_idx_garbage) None ck_log 11) = [4; 8]
+  /\ summaries (compile_cached CountUpToCut code16 no_texts [20%nat] 100%nat ck_mr ck_full None None None ck_log 11) = [4; 8]
+  /\ summaries (compile code16 no_texts ck_log 11) = [4; 8]
+  /\ users (compile code16 no_texts ck_log 11) = [11].
+Proof.
+  split; [vm_compute; reflexivity|]. split; [vm_compute; reflexivity|].
+  split; [exact (projection_file_faithful ck_log)|].
+  split; [intros f H; exact (head_of_projection ck_log f H)|].
+  split; [exact (comp_projection_faithful ck_log ck_full)|].
+  split; [exact (comp_with_bad_line_faithful ck_log ck_full [] [CGood (mkf 10 (BCkpt true 8 2))])|].
+  split; [intros fs G; rewrite all_good_c_map in G; now inversion G|].
+  split; [exact (idx_projection_faithful ck_log)|].
+  split; [apply idx_unloadable_faithful; reflexivity|].
+  split; [exact I|].
+  repeat split; vm_compute; reflexivity.
+Qed.
+
+(* K2 is not vacuous for the compiled context (S4): the checkpoint sidecar re-created by one append, the index built from it *)
+Lemma K2_changes_compiled_context :
+  ~ CompFaithfulC ck_log (Some ck_comp_recreated) ck_full
+  /\ summaries (compile_cached CountUpToCut code16 no_texts [20%nat] 100%nat ck_mr ck_full (Some ck_comp_recreated) None None ck_log 11) = [4]
+  /\ users (compile_cached CountUpToCut code16 no_texts [20%nat] 100%nat ck_mr ck_full (Some ck_comp_recreated) None None ck_log 11) = [5; 6; 7; 8; 11]
+  /\ summaries (compile code16 no_texts ck_log 11) = [4; 8]
+  /\ users (compile code16 no_texts ck_log 11) = [11].
+Proof.
+  split; [|repeat split; vm_compute; reflexivity].
+  intros F. specialize (F [mkf 9 (BCkpt true 4 1)] eq_refl). vm_compute in F. discriminate F.
+Qed.
